@@ -169,6 +169,37 @@ def run_task(P, task, prop, tier, out):
                             )
 
                         goal_rec(out, prop, fnq, "ensures:clone-has-same-class-expr-name", pj, what, b.st, g, tier)
+                        if what == "function":
+                            # the clone's function must resolve every global name its code refers to, and that the
+                            # original resolved, to the same object: the names shipped in refs win over the
+                            # deserializer's own namespace
+                            from .builtins_model import mget, mhas
+                            from .loops import co_names_has
+
+                            evs = [ev for ev in b.st.events if ev[0] == "function-globals"]
+
+                            def gg(s2, evs=evs):
+                                if len(evs) != 1:
+                                    return z3.BoolVal(False)
+                                gv = evs[0][2]
+                                go = s2.obj(gv) if isinstance(gv, VObj) else None
+                                if not isinstance(go, core.LDict):
+                                    return z3.BoolVal(False)
+                                k = z3.Const("sk.name", core.StrS)
+                                kk = core.KStr(k)
+                                s2.add_index(kk)
+                                C = z3.Function("attr_co_names", core.Opq, core.Opq)(z3.Function("attr___code__", core.Opq, core.Opq)(f))
+                                G = z3.Function("attr___globals__", core.Opq, core.Opq)(f)
+                                def same_as(v, t):
+                                    if isinstance(v, core.VIte):
+                                        return z3.If(v.c, same_as(v.a, t), same_as(v.b, t))
+                                    if isinstance(v, VOpq) and v.t.sort() == core.Opq:
+                                        return v.t == t
+                                    return z3.BoolVal(False)
+
+                                return z3.Implies(z3.And(co_names_has(C, k), mhas(G, k)), z3.And(go.present(kk), same_as(go.val(kk), mget(G, k))))
+
+                            goal_rec(out, prop, fnq, "ensures:clone-resolves-the-referenced-globals-as-the-original", pj, what, b.st, gg, tier)
     elif kind == "select-getattr":
         fi = P.lookup_method("Select", "__getattr__")
         add_function(out, fi, "select-getattr")
